@@ -33,7 +33,7 @@ def run(ctx):
             key = "zero:lod"          # one defect: LOD() of a zero-value Encoder
         ctx.violation(key, "replayed history diverges from Encoder/Protocol model: " + m["kind"], m)
     fams = ["illegal", "wellformed"]
-    r = enccheck.run_enc_traces(ctx, fams, 300 if quick else 6000, ["err", "mode", "run"])
+    r = enccheck.run_enc_traces(ctx, fams, 300 if quick else 30000, ["err", "mode", "run"])
     for kind, ds in r["diags"].items():
         for d in ds:
             ctx.violation("%s:%s:%s" % (kind, d.get("diag"), d.get("id")),
